@@ -1,0 +1,11 @@
+// Copyright © 2025 Ory Corp
+// SPDX-License-Identifier: Apache-2.0
+
+//go:build !verif
+
+package storage
+
+import "sync"
+
+// storeMutex is the lock type guarding the tables of the MemoryStore.
+type storeMutex = sync.RWMutex
